@@ -496,3 +496,18 @@ def failed_attempt(rng, w, path='failed.dlis'):
                          'errno': rng.choice([5, 28]), 'partial': rng.choice([0, 7, 80]), 'lose': 0}]
     w2['failed_attempt'] = True
     return w2
+
+
+def alias_arrays(rng, ops, p=0.1):
+    """With probability p make two channels of equal row count share ONE array object (the caller passes the same ndarray twice)."""
+    if rng.random() >= p:
+        return False
+    chans = [op for op in ops if op.get('op') == 'add' and op.get('kind') == 'channel' and not op.get('bad')
+             and isinstance((op.get('kwargs') or {}).get('data'), dict) and '$arr' in op['kwargs']['data']]
+    if len(chans) < 2:
+        return False
+    a, b = rng.sample(chans, 2)
+    lit = a['kwargs']['data']
+    lit.setdefault('$share', 'arr%08x' % rng.randrange(1 << 32))
+    b['kwargs']['data'] = copy.deepcopy(lit)
+    return True
